@@ -171,6 +171,20 @@ def run(ctx, replay):
     ctx.cov["cname_rows"] = sum(1 for row in rows if row["in"]["rounds"][0]["disc"].get("cname", "-") != "-")
     ctx.cov["remote_target_rows"] = sum(1 for row in rows if row["in"]["rounds"][0]["lookup"] == "target")
     ctx.cov["wire_rows"] = sum(1 for row in rows if row["in"]["rounds"][0]["lookup"] == "wire")
+    # dimensions the rule is independent of, rotated over the rows that reach the real discovery / TLS client
+    spell = {"af": {}, "rc": {}, "srv": {}, "hops": {}, "target_chain": {}, "target_no_tls": {}, "target_sys": 0}
+    for row in rows:
+        for rd in row["in"]["rounds"]:
+            if rd["lookup"] not in ("disc", "target", "wire"):
+                continue
+            for k in ("af", "rc", "srv", "hops"):
+                v = str(rd["disc"].get(k))
+                spell[k][v] = spell[k].get(v, 0) + 1
+            if rd["lookup"] == "target":
+                spell["target_chain"][rd["chain"]] = spell["target_chain"].get(rd["chain"], 0) + 1
+                spell["target_no_tls"][rd.get("nt", "-")] = spell["target_no_tls"].get(rd.get("nt", "-"), 0) + 1
+                spell["target_sys"] += 1 if row["in"].get("sys") else 0
+    ctx.cov["rounds_by_spelling"] = spell
     ctx.cov["rows_by_incoming_levels"] = {}
     for row in rows:
         for rd in row["in"]["rounds"]:
@@ -184,8 +198,11 @@ def run(ctx, replay):
                        "usage/selector/matching-type values by rotation (salts), every single raw record, lookup "
                        "outcomes, the discovery table, every RRset also published in a signed zone and fetched through the real "
                        "resolver path (lookup = wire), MX names that are CNAMEs (secure / initial zone only / insecure x TLSA answer "
-                       "at the canonical name x at the original name), delivery attempts of the real remote target to an "
-                       "IDN MX host, chains that are also valid under the platform trust store (in.sys), the incoming (MX level, TLS level) of CheckConn rotated over all 9 "
+                       "at the canonical name x at the original name, alias chains of 1 and 2 hops), MX hosts with A only / AAAA only / "
+                       "both address families on every row that reaches the real discovery, lookup failures spelled SERVFAIL / REFUSED / "
+                       "NOTIMP / FORMERR, a resolver configuration whose first server fails, delivery attempts of the real remote target to an "
+                       "IDN MX host (all 5 chains x the decisive records alone and in pairs through the target's own TLS client: "
+                       "unauthenticated retry, platform-trusted first handshake, STARTTLS stripped, handshake broken -> plaintext), chains that are also valid under the platform trust store (in.sys), the incoming (MX level, TLS level) of CheckConn rotated over all 9 "
                        "combinations and fully crossed with the decisive record situations, and histories of 2 and 3 MX candidates (9 situations each) served "
                        "by one delivery object, in order and with an abandoned first attempt whose lookup answers late; "
                        "distinct by construction (TLC states); non-trivial = a history of several MXs, a usable record, "
@@ -208,9 +225,15 @@ def run(ctx, replay):
         "that can hold the answers about one MX; the order of concurrent lookups is decided by that gate and observed "
         "on the lookup-result holders (export shim), never by a timer",
         "rows with in.sys run in processes whose platform root set is the generated CA (x509.SetFallbackRoots)",
-        "remote-target rows: scripted SMTP server (harness/scripted), a probe policy after mx_auth.dane observes the "
-        "TLS level; they run only in processes where the chain is not platform-trusted, so 'authenticated' can only "
-        "come from DANE",
+        "remote-target rows: scripted SMTP server (harness/scripted), probe policies before and after mx_auth.dane "
+        "observe the TLS level; 'authenticated by DANE' = authenticated after it and not before it (in processes where "
+        "the chain is platform-trusted a valid chain arrives authenticated, so those rows pair valid chains only with "
+        "records that cannot authenticate)",
+        "the wrong-name leaf carries other.example.invalid, the recipient domains of the rows and the client's own host "
+        "name: every name at hand except the MX host name",
+        "IPv6-only / dual-stack MX hosts exist only in DNS (AAAA ::1); connections of target rows are dialled by name",
+        "a 'failover' resolver configuration is 127.0.0.2 (answers SERVFAIL to everything) followed by the real mock server; "
+        "a history runs under the configuration of its first round",
         "every MX of a history has its own name (mx<k>.example.invalid), leaf certificate and TLSA RRset",
         "TLC 1.8.0, CommunityModules Json",
     ]
@@ -225,7 +248,8 @@ META = {
                  "recorded answers evaluated by TLC (DaneTrace.tla)",
     "text": "TLC enumerates the whole input table of Dane.tla (all multisets of up to 4 TLSA record classes x 5 "
             "certificate chains x handshake flag, every raw usage/selector/matching-type value incl. out-of-range, "
-            "lookup and discovery outcomes, histories of 2-3 MX candidates on one delivery object incl. an abandoned "
+            "lookup and discovery outcomes (A-only / AAAA-only / dual-stack MX hosts, CNAME chains, failure response codes, "
+            "resolver failover), delivery attempts of the real remote target over every chain, histories of 2-3 MX candidates on one delivery object incl. an abandoned "
             "attempt whose lookup answers late), checks the property predicates on the documented rule for every row, "
             "and evaluates the same predicates on the answer of the real code for every row (both tiers run all "
             "rows; thorough uses 6 concretisation salts).",
